@@ -467,6 +467,53 @@ def draw_common_options(rng, fp, force=()):
     return argv, o
 
 
+CFG_FLAGS = {"-a": "align", "--align": "align", "-s": "correct_scale", "--correct_scale": "correct_scale",
+             "--align_origin": "align_origin", "--all_pairs": "all_pairs", "--pairs_from_reference": "pairs_from_reference",
+             "--sync": "sync", "--merge": "merge"}
+CFG_VALUED = {"--n_to_align": ("n_to_align", int), "--downsample": ("downsample", int), "--t_max_diff": ("t_max_diff", float),
+              "--t_offset": ("t_offset", float), "--t_start": ("t_start", float), "--t_end": ("t_end", float),
+              "--project_to_plane": ("project_to_plane", str), "-r": ("pose_relation", str), "--pose_relation": ("pose_relation", str),
+              "--delta": ("delta", float), "-d": ("delta", float), "--delta_unit": ("delta_unit", str), "-u": ("delta_unit", str),
+              "--delta_tol": ("delta_tol", float)}
+
+
+def move_to_config(rng, argv, work, n_positional, name="options.json", p_move=.6):
+    """
+    The same options, some of them given through a -c/--config JSON file instead of flags
+    (keys are the option names, values typed as JSON) - evo documents both sources as equivalent.
+    Returns the new argv.
+    """
+    head, rest = list(argv[:n_positional]), list(argv[n_positional:])
+    keep, cfg, i = [], {}, 0
+    while i < len(rest):
+        tok = rest[i]
+        if tok in CFG_FLAGS and rng.random() < p_move:
+            cfg[CFG_FLAGS[tok]] = True
+            i += 1
+        elif tok in CFG_VALUED and rng.random() < p_move:
+            key, typ = CFG_VALUED[tok]
+            val = rest[i + 1]
+            cfg[key] = (int(float(val)) if float(val) == int(float(val)) and rng.random() < .5 else float(val)) \
+                if typ is float else typ(val)
+            i += 2
+        elif tok == "--motion_filter" and rng.random() < p_move:
+            cfg["motion_filter"] = [float(rest[i + 1]), float(rest[i + 2])]
+            i += 3
+        elif tok == "--motion_filter":
+            keep += rest[i:i + 3]
+            i += 3
+        elif tok in CFG_VALUED:
+            keep += rest[i:i + 2]
+            i += 2
+        else:
+            keep.append(tok)
+            i += 1
+    if not cfg:
+        return argv
+    open(os.path.join(work, name), "w").write(json.dumps(cfg, indent=rng.integers(0, 3) or None))
+    return head + keep + ["-c", name]
+
+
 def read_result_zip(path):
     """own reader of a result archive -> dict(info, stats, arrays, trajectories(text))"""
     out = {"arrays": {}, "traj_text": {}}
@@ -621,6 +668,8 @@ def ape_cli(run, case, rng, work):
         unit = ["mm", "cm", "m", "km", "deg", "rad"][rng.integers(6)]
         argv += ["--change_unit", unit]
     argv += ["--save_results", "out.zip", "--no_warnings"]
+    if not case.get("exe") and rng.random() < .15:
+        argv = move_to_config(rng, argv, work, 3)
     if case.get("exe"):
         # the real executable in a fresh interpreter; the package setting is overridden through -c
         open(os.path.join(work, "cfg.json"), "w").write(json.dumps({"save_traj_in_zip": True}))
